@@ -586,11 +586,15 @@ int main(int argc, char** argv) {
         std::vector<uint8_t> v;
         double last_leak_check = 0;
         size_t distinct_before = 0;
+        uint64_t steps_sum = 0;
         for (; done < cases; ++done) {
             if (max_seconds && (done & 63) == 0 && elapsed() > (double)max_seconds) { budget_hit = true; break; }
             gen_bytes(rng, v, maxlen, pool);
             publish_current(v.data(), v.size());
+            const uint64_t steps_before = g_steps;
             Outcome o = run_case(ctx, v.data(), v.size());
+            const uint64_t case_steps = g_steps - steps_before;
+            steps_sum += case_steps;
             if (trace_f) { uint32_t n = (uint32_t)v.size(); fwrite(&n, 4, 1, trace_f); if (n) fwrite(v.data(), 1, n, trace_f); fwrite(&o.digest, 8, 1, trace_f); }
             if (o.failed && !o.known) { handle_failure(v, o); rc = 3; break; }
             // remember cases that produced a new non-trivial hash (cheap evolutionary search)
@@ -598,8 +602,13 @@ int main(int argc, char** argv) {
                 size_t dc = ctx.distinct();
                 if (dc != distinct_before) {
                     distinct_before = dc;
-                    if (pool.size() < 1024) pool.push_back(v);
-                    else pool[rng.below(pool.size())] = v;
+                    // cost-aware: a case that needed far more work than the average so far is explored (it just ran) but not
+                    // bred from, otherwise a rare expensive shape multiplies until the workers spend their whole budget on it
+                    const uint64_t mean = steps_sum / (done + 1);
+                    if (case_steps <= 30 * mean + 100000) {
+                        if (pool.size() < 1024) pool.push_back(v);
+                        else pool[rng.below(pool.size())] = v;
+                    }
                 }
             }
             if ((done & 0x3fff) == 0x3fff) ctx.dump(g_stats_path.c_str());
